@@ -108,6 +108,21 @@ def jsonable(x):
 
 
 def main(mod, argv=None):
+    # every temporary file of this run (scratch instance files of the worker processes, CBC's .mps/.sol files of the
+    # replays, CrossHair harness files) lives under ONE directory that is removed when the run ends
+    import shutil
+    import tempfile
+    root = tempfile.mkdtemp(prefix='vf_run_')
+    tempfile.tempdir = root
+    os.environ['TMPDIR'] = root
+    try:
+        return _main2(mod, argv)
+    finally:
+        tempfile.tempdir = None
+        shutil.rmtree(root, ignore_errors=True)
+
+
+def _main2(mod, argv=None):
     try:
         return _main(mod, argv)
     except BaseException as e:  # noqa - never let a crash look like a verdict
